@@ -271,12 +271,17 @@ func (c04) Run(sc core.Scenario) core.Result {
 	return r4.Result()
 }
 
-func customClient(rpc *jsonrpc.RPCServer, out *svc.Client, opts ...jsonrpc.Option) (jsonrpc.ClientCloser, error) {
-	return jsonrpc.NewCustomClient("S", []interface{}{out}, func(ctx context.Context, body []byte) (io.ReadCloser, error) {
+// customDo is the README's custom transport: HandleRequest through a buffer.
+func customDo(rpc *jsonrpc.RPCServer) func(ctx context.Context, body []byte) (io.ReadCloser, error) {
+	return func(ctx context.Context, body []byte) (io.ReadCloser, error) {
 		var buf bytes.Buffer
 		rpc.HandleRequest(ctx, bytes.NewReader(body), &buf)
 		return io.NopCloser(&buf), nil
-	}, opts...)
+	}
+}
+
+func customClient(rpc *jsonrpc.RPCServer, out *svc.Client, opts ...jsonrpc.Option) (jsonrpc.ClientCloser, error) {
+	return jsonrpc.NewCustomClient("S", []interface{}{out}, customDo(rpc), opts...)
 }
 
 func runPlain04(sc core.Scenario, r *core.R) {
